@@ -201,3 +201,84 @@ class GenerateInteractions(Contract):
         ctx.oblige('C10.rows.in_stream_order', z3.Implies(inb(c.qi, seq.n), ys[c.qi] == evrow(seq.meta['key'](c.qi), seq.meta['time'](c.qi))), tags=T)
         for comp, f in spec.state_unchanged(c.g, c.pre).items():
             ctx.oblige('C10.rows.modifies_nothing.%s' % comp, f, tags=T)
+
+
+class NodeLinkData(GenerateSnapshots):
+    r"""node_link_data(G, attrs) (C11), modular against the listing contract.
+    ensures  data['directed'] = G is directed;  data['nodes'] has exactly one entry per node of G (isolated ones included; the entry -
+             attributes plus the id - is kept opaque);  data['links'] holds exactly one {source, target, time} per listed interaction and per
+             instant at which it is present, with the listing's orientation (directed: out_interactions_iter);  G is not modified
+    (JSON-serialisability and the decoder are outside the encoding: bounded part)"""
+    props = ('C11',)
+    key = 'node_link::node_link_data'
+
+    def setup(self, ctx, variant):
+        c = GenerateSnapshots.setup(self, ctx, variant)
+        attrs = VDictLit([(VStr('id'), VStr('id')), (VStr('source'), VStr('source')), (VStr('target'), VStr('target'))])
+        c.argv = [VGraph(c.g), attrs]
+        self.ghost0 = {}
+        return c
+
+    def body(self, interp, call):
+        return Contract.body(self, interp, call)
+
+    @staticmethod
+    def rows(L, env):
+        data = [v for v in env.values() if getattr(v, 'kind', None) == 'dict' and any(k.kind == 'str' and k.s == 'links' for k, _ in v.pairs)]
+        if not data:
+            raise Undecided('the data dict of node_link_data was not found among the locals')
+        links = dict((k.s, v) for k, v in data[0].pairs)['links']
+        if links.kind == 'linkbag':
+            return links.cnt
+        if links.kind == 'list' and not links.items:
+            return z3.K(Node, z3.K(Node, z3.K(Int, IntV(0))))
+        raise Undecided('links slot of kind %s' % links.kind)
+
+    def loop_specs(self):
+        specs = GenerateSnapshots.loop_specs(self)
+
+        class _Env(dict):
+            pass
+
+        def wrap(inv):
+            def inv2(L):
+                # the invariants of generate_snapshots, with the ghost row multiset read from data['links']
+                e1 = _Env(L.env)
+                e1['$yrow'] = VOpaque(self.rows(L, L.env), 'ghost')
+                e0 = _Env(L.env0)
+                e0['$yrow'] = VOpaque(self.rows(L, L.env0), 'ghost')
+                saved = (L.env, L.env0)
+                L.env, L.env0 = e1, e0
+                try:
+                    return inv(L)
+                finally:
+                    L.env, L.env0 = saved
+            return inv2
+        out = {}
+        for k, sp in specs.items():
+            out[k] = LoopSpec(wrap(sp.inv), modifies={}, assumes=sp.assumes, on_exit=sp.on_exit, tags=('C11',))
+        return out
+
+    def finish(self, ctx, c, outcome):
+        T = ('C11',)
+        if outcome[0] == 'raise':
+            return self.forbid(ctx, 'C11.data.no_exception.%s' % outcome[1], tags=T, note=outcome[2])
+        r = outcome[1]
+        if r.kind != 'dict':
+            return self.forbid(ctx, 'C11.data.returns_a_dict', tags=T)
+        slots = {k.s: v for k, v in r.pairs if k.kind == 'str'}
+        for need in ('directed', 'nodes', 'links', 'graph'):
+            if need not in slots:
+                return self.forbid(ctx, 'C11.data.has_key_%s' % need, tags=T)
+        d = slots['directed']
+        ctx.oblige('C11.data.records_directedness', (d.z == z3.BoolVal(self.directed)) if d.kind == 'bool' else z3.BoolVal(False), tags=T)
+        nd = slots['nodes']
+        ctx.oblige('C11.data.one_entry_per_node', (nd.member(c.qa) == c.pre['NodeIn'][c.qa]) if nd.kind == 'bag' else z3.BoolVal(False), tags=T)
+        ctx.oblige('C11.data.graph_attributes', (slots['graph'].z == c.pre['GAttr']) if slots['graph'].kind == 'opaque' else z3.BoolVal(False), tags=T)
+        links = slots['links']
+        Y = links.cnt if links.kind == 'linkbag' else z3.K(Node, z3.K(Node, z3.K(Int, IntV(0))))
+        a, b, q = c.qa, c.qb, c.qq
+        listed = self.flat_member(ctx, c, a, b)
+        ctx.oblige('C11.data.one_link_per_listed_interaction_and_present_instant', Y[a][b][q] == b2i(z3.And(listed, c.vG.Pres[a][b][q])), tags=T)
+        for comp, f in spec.state_unchanged(c.g, c.pre).items():
+            ctx.oblige('C11.data.modifies_nothing.%s' % comp, f, tags=T)
